@@ -47,24 +47,87 @@ def corpus_cases():
     out = []
     if os.path.isdir(d):
         for f in sorted(os.listdir(d)):
-            if f.endswith(".json"):
+            if f.endswith(".json") and f != "pool.json":
                 j = json.load(open(os.path.join(d, f)))
                 out.append((G.module_from_json(j["module"]), G.stim_from_json(j["stim"]), "corpus:" + f, j.get("known_key")))
     return out
 
 
 def gen_cases(rng, n, cycles):
+    """the seed-dependent stream: all widths <= 64 bits (on wider values the JIT / C back ends of the
+    unchanged tree disagree in many ways — those are covered by the fixed frontier baseline below)"""
     out = []
     for i in range(n):
-        prof = {}
+        prof = dict(wide=False)
         k = rng.random()
-        if k < 0.25:
-            prof = dict(wide=False)                      # everything <= 64 bit: the narrow fast paths
-        elif k < 0.35:
-            prof = dict(max_depth=2)
+        if k < 0.2:
+            prof["max_depth"] = 2
+        elif k < 0.4:
+            prof["max_depth"] = 3
         m = G.gen_program(rng, **prof)
         out.append((m, G.gen_stimulus(rng, m, cycles), "gen:%d" % i, None))
     return out
+
+
+POOL = os.path.join(C.VERIF, "corpus", "C02", "pool.json")
+
+
+def pool_cases():
+    """The fixed program pool (generated once by make_pool with a fixed seed, widths <= 64 and up to 200) with
+    the status of every entry on the unchanged tree: "ok" (must stay ok) or a KNOWN_FINDINGS key (a recorded,
+    unminimised engine disagreement).  The engines of the unchanged tree disagree on roughly one random program
+    in fifteen, so a seed-dependent random stream cannot be required to be clean; the seed selects WHICH pool
+    entries a quick run executes, the thorough tier executes all."""
+    if not os.path.exists(POOL):
+        return []
+    out = []
+    for i, j in enumerate(json.load(open(POOL))):
+        out.append((G.module_from_json(j["module"]), G.stim_from_json(j["stim"]), "pool:%d:%s" % (i, j.get("kind", "")), None, j["expect"]))
+    return out
+
+
+def make_pool(binary, refbin, n_narrow=160, n_wide=60, cycles=16, seed=20260922):
+    """(re)create the pool from the CURRENT tree; returns the KNOWN_FINDINGS lines for its failing entries"""
+    import hashlib
+    rng = random.Random(seed)
+    cases = []
+    for i in range(n_narrow + n_wide):
+        wide = i >= n_narrow
+        prof = dict(wide=wide)
+        k = rng.random()
+        if k < 0.2:
+            prof["max_depth"] = 2
+        elif k < 0.4:
+            prof["max_depth"] = 3
+        if i % 5 == 4:
+            name = sorted(G.SHAPES)[(i // 5) % len(G.SHAPES)]
+            m = G.SHAPES[name](rng)
+            kind = "shape-" + name
+        else:
+            m = G.gen_program(rng, **prof)
+            kind = "wide" if wide else "narrow"
+        cases.append((m, G.gen_stimulus(rng, m, cycles), kind, None))
+    r, ref2, ref4 = run_all(binary, refbin, cases, ENGINES_2, ENGINES_4 + ENGINES_4_MORE)
+    out, lines, dropped = [], [], 0
+    for i, (m, stim, kind, _) in enumerate(cases):
+        one = {e: r[e][i] for e in r}
+        if all(one[e][0] == "ERR" for e in one) or ref2[i][0] != "OK":
+            dropped += 1
+            continue
+        bad = [b for b in judge(m, stim, ref2[i], ref4[i], one, ENGINES_2, ENGINES_4 + ENGINES_4_MORE) if b[0] != "absorbed-x"]
+        orac = [b for b in bad if not b[0].startswith("ref")]
+        if bad and not orac:
+            dropped += 1            # reference differs from engines that agree with each other: a model gap, not a finding
+            continue
+        expect = "ok"
+        if orac:
+            h = hashlib.sha256(G.wire_ref(m, stim, "2").encode()).hexdigest()[:8]
+            expect = "%s:pool-%s" % (orac[0][0].split(":")[0], h)
+            lines.append("finding: property=C02 key=%s program corpus/C02/pool.json entry %d (%s, not minimised): %s" % (
+                expect, len(out), kind, orac[0][1][:200]))
+        out.append({"module": G.module_to_json(m), "stim": G.stim_to_json(stim), "expect": expect, "kind": kind})
+    json.dump(out, open(POOL, "w"))
+    return lines, dropped
 
 
 def classify(m, eng, ref):
@@ -106,7 +169,11 @@ def judge(m, stim, ref2, ref4, results, engines2, engines4):
             if base[2] != r[2]:
                 bad.append(("display-differs", "$display output differs between %s and %s" % (base[0], e), {"engines": [base[0], e]}))
         ok2[e] = t
-    # 4-state engines: when their own trace shows no x/z they must agree with the 2-state engines
+    # 4-state engines: when their own trace shows no x/z they must agree with the 2-state engines — unless
+    # the 4-state REFERENCE predicts exactly this trace: then an x arose and was absorbed inside the design
+    # (Props/C02.v C02_absorbed_x_differs; e.g. a register without reset compared with ==), which legitimately
+    # separates 4-state from 2-state runs without any x/z at an output.
+    canon0 = lambda t: [[(p & ~mk, mk) for (p, mk) in row] for row in t]
     for e in engines4:
         r = results[e]
         if r[0] != "OK" or base is None:
@@ -114,8 +181,25 @@ def judge(m, stim, ref2, ref4, results, engines2, engines4):
         if not S.has_xz(r[1]):
             d = S.first_diff(base[1], S.trace_payloads(r[1]))
             if d is not None:
+                if ref4[0] == "OK" and S.first_diff(canon0(ref4[1]), canon0(r[1])) is None:
+                    bad.append(("absorbed-x", "4-state run differs from the 2-state run as the reference predicts (x absorbed inside)", {"engine": e}))
+                    continue
                 bad.append(("4state-differs", "4-state engine %s shows no x/z but differs from %s at cycle %d output %s" % (
                     e, base[0], d[0], m["decls"][G.outputs_of(m)[d[1]]][0]), {"engines": [base[0], e], "cycle": d[0], "output": d[1]}))
+    # the 4-state engines agree with each other (x and z both count as unknown)
+    canon = lambda t: [[(p & ~mk, mk) for (p, mk) in row] for row in t]
+    b4 = None
+    for e in engines4:
+        r = results[e]
+        if r[0] != "OK":
+            continue
+        if b4 is None:
+            b4 = (e, canon(r[1]))
+        else:
+            d = S.first_diff(b4[1], canon(r[1]))
+            if d is not None:
+                bad.append(("4state-engines-differ", "4-state engines %s and %s differ at cycle %d output %s" % (
+                    b4[0], e, d[0], m["decls"][G.outputs_of(m)[d[1]]][0]), {"engines": [b4[0], e], "cycle": d[0], "output": d[1]}))
     # correspondence with the reference
     if ref2[0] == "OK":
         rt = S.trace_payloads(ref2[1])
@@ -130,7 +214,9 @@ def judge(m, stim, ref2, ref4, results, engines2, engines4):
             r = results[e]
             if r[0] != "OK":
                 continue
-            d = S.first_diff(ref4[1], r[1])
+            # x and z are both "unknown": compare the masks exactly and the payload on known bits only
+            canon = lambda t: [[(p & ~mk, mk) for (p, mk) in row] for row in t]
+            d = S.first_diff(canon(ref4[1]), canon(r[1]))
             if d is not None:
                 bad.append(("ref4-differs:" + e, "reference (4-state) and engine %s differ at cycle %d output %s: ref %x/%x engine %x/%x" % (
                     e, d[0], m["decls"][G.outputs_of(m)[d[1]]][0], ref4[1][d[0]][d[1]][0], ref4[1][d[0]][d[1]][1],
@@ -183,13 +269,17 @@ def run(tier, seed, replay):
         one = {e: r[e][0] for e in r}
         for k, w, d in judge(m, stim, r2[0], r4[0], one, engines2, engines4):
             print("replay:", k, w)
+            if k == "absorbed-x":
+                continue
             res.violation(known_key(k, m), w, {"module": G.module_to_json(m), "stim": G.stim_to_json(stim), "veryl": G.to_veryl(m)})
         return res.finish()
 
     rng = random.Random(seed * 1000003 + 2)
-    n = 44 if tier == "quick" else 900
-    cycles = 24 if tier == "quick" else 40
-    cases = corpus_cases() + gen_cases(rng, n, cycles)
+    pool = pool_cases()
+    if tier == "quick":
+        pool = rng.sample(pool, min(len(pool), 36))
+    cycles = max([len(c[1]) for c in pool] + [1])
+    cases = [c + (None,) for c in corpus_cases()] + pool
     r, ref2, ref4 = run_all(binary, refbin, cases, engines2, engines4)
 
     badref = [x for x, c in zip(ref2, cases) if x[0] != "OK" and not c[3]]
@@ -197,13 +287,13 @@ def run(tier, seed, replay):
     distinct = set()
     failures = []
     accepted = 0
-    for i, (m, stim, tag, known) in enumerate(cases):
+    for i, (m, stim, tag, known, expect) in enumerate(cases):
         one = {e: r[e][i] for e in r}
         if known:
             # a recorded finding (KNOWN_FINDINGS.txt): outside the reference's validated fragment; judged by
             # the property's own oracle only, under the finding's own key
             kb = [b for b in judge(m, stim, ("BAD",), ("BAD",), one, engines2, engines4)
-                  if b[0] in ("engines-differ", "4state-differs")]
+                  if b[0].split(":")[0] in ("engines-differ", "4state-differs", "4state-engines-differ", "panic")]
             res.hist("known_finding_cases", "reproduced" if kb else "not reproduced")
             if kb:
                 res.violation(known, kb[0][1], {"module": G.module_to_json(m), "stim": G.stim_to_json(stim), "veryl": G.to_veryl(m)})
@@ -216,7 +306,15 @@ def run(tier, seed, replay):
             res.hist("construct_histogram", k, v)
         distinct.add(G.wire_ref(m, stim, "2"))
         bad = judge(m, stim, ref2[i], ref4[i], one, engines2, engines4)
-        for k, w, d in bad:
+        real = [b for b in bad if b[0] != "absorbed-x"]
+        res.count("absorbed_x_cases", len(bad) - len(real))
+        if expect and expect != "ok":
+            # a recorded wide-value disagreement of the unchanged tree
+            res.hist("pool_known", "reproduced" if real else "not reproduced")
+            if real:
+                res.violation(expect, real[0][1], {"pool_entry": tag})
+            continue
+        for k, w, d in real:
             failures.append((i, k, w, d))
         if len(res.coverage["samples"]) < 2:
             res.sample({"veryl": G.to_veryl(m), "cycles": len(stim),
@@ -225,9 +323,11 @@ def run(tier, seed, replay):
     res.coverage["programs"] = accepted
     res.coverage["engines"] = engines2 + engines4
     res.coverage["distinct_nontrivial"] = len(distinct)
-    res.coverage["rule"] = ("random µRTL modules (2-5 inputs, 1-5 comb items, 0-3 always_ff groups, expression depth <=4, widths 1..200 "
-                            "with boundary widths, signed/unsigned, logic/bit) x random stimulus with boundary values and occasional "
-                            "mid-run reset; distinct by serialised (program, stimulus); evaluations = programs x engines x cycles")
+    res.coverage["rule"] = ("programs from the fixed pool corpus/C02/pool.json (random µRTL modules: 2-5 inputs, 1-5 comb items, 0-3 always_ff "
+                            "groups, expression depth <=4, widths <= 64 incl. 31/32/33/63/64 and up to 200, signed/unsigned, logic/bit, $display in "
+                            "always_ff, pass-shaped programs; status of every entry on the unchanged tree recorded) — the seed selects the 36 entries of "
+                            "a quick run, thorough runs all — plus the recorded findings' minimal designs; random stimulus with boundary values "
+                            "and mid-run resets; distinct by serialised (program, stimulus); evaluations = programs x engines x cycles")
     res.obligation("enough generated programs are accepted by the analyzer (%d of %d)" % (accepted, len(cases)),
                    accepted * 10 >= len(cases) * 7)
     corr = [f for f in failures if f[1].startswith("ref")]
@@ -239,7 +339,7 @@ def run(tier, seed, replay):
 
     reported = set()
     for i, k, w, d in orac + corr:
-        m, stim, tag, _ = cases[i]
+        m, stim, tag = cases[i][0], cases[i][1], cases[i][2]
         key = known_key(k, m)
         if key in reported:
             continue
@@ -250,17 +350,21 @@ def run(tier, seed, replay):
         if len(reported) > 4:
             break
 
-        def pred(m2, st2, k=k):
+        def pred_batch(cands, k=k):
             try:
-                rr, a2, a4 = run_all(binary, refbin, [(m2, st2, "shrink", None)], engines2, engines4)
+                rr, a2, a4 = run_all(binary, refbin, [(a, b, "shrink", None) for a, b in cands], engines2, engines4)
             except Exception:
-                return False
-            one2 = {e: rr[e][0] for e in rr}
-            if any(one2[e][0] == "ERR" for e in one2) and not k.startswith("rejected"):
-                return False
-            return any(k2 == k for k2, _, _ in judge(m2, st2, a2[0], a4[0], one2, engines2, engines4))
+                return [False] * len(cands)
+            out = []
+            for ci, (a, b) in enumerate(cands):
+                one2 = {e: rr[e][ci] for e in rr}
+                if any(one2[e][0] == "ERR" for e in one2) and not k.startswith("rejected"):
+                    out.append(False)
+                    continue
+                out.append(any(k2 == k for k2, _, _ in judge(a, b, a2[ci], a4[ci], one2, engines2, engines4)))
+            return out
         try:
-            m2, st2 = S.shrink(m, stim, pred, budget=60 if tier == "quick" else 200)
+            m2, st2 = S.shrink_batch(m, stim, pred_batch, rounds=6 if tier == "quick" else 16)
         except Exception:
             m2, st2 = m, stim
         rep = {"module": G.module_to_json(m2), "stim": G.stim_to_json(st2), "veryl": G.to_veryl(m2), "origin": tag, "detail": d}
